@@ -8,6 +8,7 @@ pub mod c12;
 pub mod c13;
 pub mod c14;
 pub mod c18;
+pub mod c20;
 
 fn one(_: Tier) -> usize { 1 }
 
@@ -18,6 +19,7 @@ pub fn all() -> Vec<CheckDef> {
         CheckDef { id: "C13", shards: one, run: c13::run, replay: Some(c13::replay) },
         CheckDef { id: "C14", shards: one, run: c14::run, replay: Some(c14::replay) },
         CheckDef { id: "C18", shards: one, run: c18::run, replay: Some(c18::replay) },
+        CheckDef { id: "C20", shards: one, run: c20::run, replay: Some(c20::replay) },
     ]
 }
 
